@@ -77,4 +77,12 @@ theorem items_ok :
     okSeq false [.blk (p 1 [r 2 [t 3 "a"]]), .grp [strayEq], .blk (p 8 [r 9 [t 10 "b"]]), .grp [r 20 [t 21 "s"], strayEq]] = true := by
   decide +kernel
 
+/-- non-vacuity of `C02_part`: the body of `strayDoc` (paragraph, display equation, two paragraphs) meets its
+hypotheses — the children form an admissible sequence and no label is left queued -/
+theorem part_hypotheses :
+    itemsOK strayDoc.kids = true ∧
+    (match walk cfg [] false ({ bullets := { numAttrs := [] } } : DC) strayDoc with
+      | .ok s5 => s5.queued.isEmpty | .error _ => false) = true := by
+  decide +kernel
+
 end D2P.Ex
